@@ -7,7 +7,9 @@ from props import sessprop
 
 def gen(rnd):
     cfg = [matchgen.matcher(rnd, 2).strip() if rnd.random() < 0.5 else None,
-           matchgen.matcher(rnd, 1).strip() if rnd.random() < 0.3 else None, 0, rnd.randrange(2), 0]
+           matchgen.matcher(rnd, 1).strip() if rnd.random() < 0.3 else None, rnd.choice([0, 0, 1]), rnd.randrange(2), 0]
+    if rnd.random() < 0.2:
+        cfg[0] = rnd.choice(['A: ', 'B:', 'A: wl_registry', '.bind ! B:', 'B: .get_registry, A: .sync'])      # connection names in the filter
     return sessioncheck.build_case(rnd, n_events=rnd.choice([20, 35, 50]), config=cfg, chatter=0.05,
                                    cmds=lambda r: cmdgen.mixed(r, (4, 1, 1, 3, 1)), cmd_rate=0.15)
 
